@@ -57,8 +57,11 @@ var lfDocs = map[int]lfDoc{
 		{"agreement", "p384", []docdid.VerificationRelationship{docdid.KeyAgreement}},
 		{"delegate", "k1", []docdid.VerificationRelationship{docdid.CapabilityDelegation, docdid.Authentication}}},
 		svcs: []string{"https://hub.example/a"}, aka: []string{"https://me.example/"}},
-	3: {keys: []lfKey{{"a", "p521", []docdid.VerificationRelationship{docdid.AssertionMethod}}, {"b", "p256", []docdid.VerificationRelationship{docdid.Authentication, docdid.KeyAgreement}}},
-		svcs: []string{"https://one.example/x", "did:example:123"}, aka: []string{"https://first.example/", "HTTPS://Second.Example/zoë"}},
+	// 3: key ids that differ in case only, characters that HTML-minded JSON writers escape, a member name order that
+	// differs between UTF-8 and UTF-16
+	3: {keys: []lfKey{{"a", "p521", []docdid.VerificationRelationship{docdid.AssertionMethod}}, {"b", "p256", []docdid.VerificationRelationship{docdid.Authentication, docdid.KeyAgreement}},
+		{"A", "k1", []docdid.VerificationRelationship{docdid.Authentication}}, {"B", "ed", []docdid.VerificationRelationship{docdid.Authentication}}},
+		svcs: []string{"https://one.example/x?a=1&b=2", "did:example:123"}, aka: []string{"https://first.example/?q=<1>&r=2", "HTTPS://Second.Example/zoë\u2028"}},
 	4: {svcs: []string{"https://only-a-service.example/"}},
 	// 5: the largest document the VDR accepts (its endpoint is lengthened at start-up until Create refuses)
 	5: {keys: []lfKey{{"key-1", "ed", []docdid.VerificationRelationship{docdid.Authentication}}}, svcs: []string{"https://hub.example/"}},
